@@ -147,6 +147,13 @@ type World[C any] interface {
 	Components() (real []string, stub []string)
 }
 
+// Pinner is optionally implemented by a world: Pin returns the case restricted
+// to the exact fault point recorded in the violation (so that a replay checks
+// that point first instead of re-enumerating).
+type Pinner[C any] interface {
+	Pin(c C, v *Violation) (C, bool)
+}
+
 // KnownFinding is one entry of /verif/known_findings.json.
 type KnownFinding struct {
 	ID          string            `json:"id"`
@@ -422,12 +429,18 @@ func RunWorker[C any](w World[C]) {
 			others = append(others, k)
 		}
 		known = others
-		attempts := envInt("VERIF_REPLAY_ATTEMPTS", 3)
+		attempts := envInt("VERIF_REPLAY_ATTEMPTS", 4)
 		var out *Outcome
 		rep := false
 		for a := 0; a < attempts && !rep; a++ {
 			env := mkEnv(fmt.Sprintf("replay%d", a), true)
 			env.Property = rf.Property
+			// later attempts trust the recorded fault point less and less
+			if a == 1 {
+				env.Extra["unpin"] = "inner"
+			} else if a > 1 {
+				env.Extra["unpin"] = "all"
+			}
 			out = safeExec(w, c, env)
 			done(env)
 			rep = out.Violation != nil && rf.Violation != nil && out.Violation.Kind == rf.Violation.Kind
@@ -516,6 +529,15 @@ func RunWorker[C any](w World[C]) {
 				return nil
 			}
 			minC, minV = Minimise(w, c, v, test)
+			if pw, ok := any(w).(Pinner[C]); ok {
+				if pc, ok2 := pw.Pin(minC, minV); ok2 {
+					mdl = time.Now().Add(20 * time.Second)
+					if vv := test(pc); vv != nil {
+						minC, minV = pc, vv
+						minStats["pinned"] = 1
+					}
+				}
+			}
 			minStats["final_ops"] = w.NumOps(minC)
 			minStats["execs"] = execs
 			// a minimised case may match a known finding more clearly
